@@ -912,7 +912,14 @@ func (c *Ctx) c08PatternsAreTheCallersOwn() {
 // 'empty' — reflection.IsEmpty trims white space, and a name made of blanks is a legal name) disappears from every
 // operation at once, whatever the patterns.
 func (c *Ctx) c08FilterLeavesOutOnlyWhatMatches() {
-	c.rule("E15", "in ExcludeFiles an item of the listing is left out of the result only on the true side of IsPathExcluded(item, …): no other test decides what a listing holds", 1)
+	c.filterLeavesOutOnlyWhatMatches("E15")
+}
+
+// filterLeavesOutOnlyWhatMatches is the rule E15 reported as `rule`: every listing, walk, copy, archive and removal of the
+// package goes through ExcludeFiles, so the obligation is evaluated for each property whose verdict does (C04/N21, C06/Z31,
+// C07/V20).
+func (c *Ctx) filterLeavesOutOnlyWhatMatches(rule string) {
+	c.rule(rule, "in ExcludeFiles an item of the listing is left out of the result only on the true side of IsPathExcluded(item, …): no other test decides what a listing holds", 1)
 	f := c.fnOpt(fsPkgRel, "ExcludeFiles")
 	if f == nil {
 		return
@@ -933,12 +940,12 @@ func (c *Ctx) c08FilterLeavesOutOnlyWhatMatches() {
 	})
 	key := fname(f) + "/left-out-only-when-excluded"
 	if app == nil || ex == nil {
-		c.violate("E15", key, c.pos(f.Pos()), "ExcludeFiles no longer has a loop that appends the items IsPathExcluded does not match")
+		c.violate(rule, key, c.pos(f.Pos()), "ExcludeFiles no longer has a loop that appends the items IsPathExcluded does not match")
 		return
 	}
 	hdr := loopHeaderOf(app)
 	if hdr == nil {
-		c.undecided("E15", key, c.ipos(app), "the loop of ExcludeFiles was not recognised")
+		c.undecided(rule, key, c.ipos(app), "the loop of ExcludeFiles was not recognised")
 		return
 	}
 	first := hdr.Instrs[0]
@@ -951,7 +958,7 @@ func (c *Ctx) c08FilterLeavesOutOnlyWhatMatches() {
 		return v == ssa.Value(ex) && k == ts // the item matched: leaving it out is the point
 	}
 	skip := pathPruned(f, first, func(i ssa.Instruction) bool { return i == ssa.Instruction(app) }, func(i ssa.Instruction) bool { return i == first }, prune)
-	c.check(skip == nil, "E15", key, c.ipos(ex), "the only way round the append is the true side of IsPathExcluded",
+	c.check(skip == nil, rule, key, c.ipos(ex), "the only way round the append is the true side of IsPathExcluded",
 		"an item can be left out of the result without IsPathExcluded having matched it (a way round the append at "+c.ipos(app)+" that does not pass the true side of the test): an entry whose name is passed over on other grounds — a name made of white space, which reflection.IsEmpty takes for empty — vanishes from every listing, walk, copy and archive, and Remove reports success with it still there")
 }
 
